@@ -451,3 +451,81 @@ func VH02i_idle_loss() {
 	verif.Reach("idle-loss-checked")
 	sock.Close()
 }
+
+// VH02j_pair_reconnect: the PAIR peer stops reading with one message stuck in
+// the write and more queued behind it, then disconnects; a new peer connects
+// and reads. What the new peer receives is an in-order subsequence of what
+// was sent (messages may be lost with the failed connection, never reordered,
+// duplicated or invented), and messages sent after the reconnection all arrive.
+func VH02j_pair_reconnect() {
+	proto := pairs[verif.Choice("proto", len(pairs))]
+	lab := "C02/" + proto + "/reconnect"
+	sock := vp.New(proto)
+	wq := 1 + verif.Choice("wqlen", 3) // 1..3
+	verif.Assert(sock.SetOption(mangos.OptionWriteQLen, wq) == nil, lab+"/set-wqlen")
+	side := vt.Listen(sock, "a")
+	p1 := side.Peer("p1")
+	mode := vt.SendBlock // the stuck write fails when the connection goes
+	if verif.Choice("late-success", 2) == 1 {
+		mode = vt.SendHold // ... or reports success after the connection went
+	}
+	p1.SendMode = mode
+	bodies := make([][]byte, 7) // by tag
+	n := 0
+	burst := 2 + verif.Choice("burst", 4) // 2..5 messages before the peer goes: queue partly filled, full, or a sender waiting
+	for i := 0; i < burst; i++ {
+		b := []byte{byte('a' + i), verif.Byte("out")}
+		var serr error
+		g := verif.Go("send", func() { serr = sendOne(sock, proto, b) })
+		verif.Quiesce()
+		bodies[i] = b
+		if !g.Done() {
+			break // queue full: the sender waits, as documented (its message goes out once there is room)
+		}
+		verif.Assert(serr == nil, lab+"/send-ok")
+		n++
+	}
+	p1.Drop()
+	verif.Quiesce()
+	if mode == vt.SendHold {
+		p1.Release()
+		verif.Quiesce()
+	}
+	p2 := side.Peer("p2")
+	verif.Assert(!p2.Closed, lab+"/new-peer-refused-after-the-first-left")
+	verif.Quiesce()
+	// two more after the reconnection
+	for i := 0; i < 2; i++ {
+		b := []byte{byte('a' + 5 + i), verif.Byte("later")}
+		var serr error
+		g := verif.Go("send", func() { serr = sendOne(sock, proto, b) })
+		verif.Quiesce()
+		verif.Assert(g.Done() && serr == nil, lab+"/send-blocks-although-the-new-peer-takes-messages")
+		bodies[5+i] = b
+	}
+	verif.Quiesce()
+	last := -1
+	later := 0
+	for _, r := range p2.Sent {
+		w := r.B
+		if len(w) != 2 {
+			verif.Fail(lab + "/invented-or-changed-message")
+			continue
+		}
+		idx := int(w[0] - 'a')
+		verif.Assert(idx >= 0 && idx < len(bodies) && bodies[idx] != nil && verif.BytesEq(w, bodies[idx]), lab+"/invented-or-changed-message")
+		verif.Assert(idx > last, lab+"/reordered-or-duplicated-on-one-connection")
+		last = idx
+		if idx >= 5 {
+			later++
+		}
+	}
+	verif.Assert(later == 2, lab+"/message-lost-although-sent-after-the-reconnection")
+	for _, r := range p1.Sent {
+		for _, q := range p2.Sent {
+			verif.Assert(!(len(r.B) == 2 && len(q.B) == 2 && r.B[0] == q.B[0]), lab+"/message-delivered-to-both-the-old-and-the-new-peer")
+		}
+	}
+	verif.Reach("reconnect-checked")
+	sock.Close()
+}
